@@ -196,9 +196,18 @@ def build_instruction(ins):
 
 
 def build_program(program_spec):
+    """Instruction specs -> Program.  {"type": "$nested", "register": [...], "program": [...]} registers a
+    sub-program on a register, exactly as `pq.Q(*register) | subprogram` does inside a `with pq.Program()`."""
     import piquasso as pq
 
-    return pq.Program(instructions=[build_instruction(i) for i in program_spec])
+    program = pq.Program(instructions=[])
+    for i in program_spec:
+        if i["type"] == "$nested":
+            sub = build_program(i["program"])
+            sub._apply_to_program_on_register(program, register=pq.Q(*i["register"]))
+        else:
+            program.instructions.append(build_instruction(i))
+    return program
 
 
 _DTYPES = {"float64": np.float64, "float32": np.float32}
